@@ -139,7 +139,8 @@ def pref(tval):
 
 def job_class(args):
     n, shape, lay, nds, alpha, first = args[:6]
-    salpha = args[6] if len(args) > 6 else alpha          # level of the wrapped Student test (may differ from the correction's)
+    salpha = args[6] if len(args) > 6 and args[6] is not None else alpha   # level of the wrapped Student test (may differ)
+    nanref = len(args) > 7 and args[7]       # an undefined bin comes from a NaN in the REFERENCE dataset instead of the compared one
     from valjean.eponine.dataset import Dataset
     from valjean.gavroche.stat_tests.student import TestStudent
     from valjean.gavroche.stat_tests.bonferroni import TestBonferroni, TestHolmBonferroni
@@ -158,7 +159,17 @@ def job_class(args):
     dsref = mkds([0.0] * n, [0.0] * n)
     for rest in itertools.product(TVALS, repeat=n * nds - 1):
         tvals = (first,) + rest
-        others = [mkds(list(tvals[k * n:(k + 1) * n]), [1.0] * n) for k in range(nds)]
+        if nanref:
+            # the bins that are NaN in the first compared dataset are NaN in the reference instead (hence undefined for
+            # every compared dataset); the number of hypotheses is still the number of bins
+            holes = [i for i in range(n) if math.isnan(tvals[i])]
+            if not holes:
+                continue
+            dsref = mkds([math.nan if i in holes else 0.0 for i in range(n)], [0.0] * n)
+            tvals = tuple(math.nan if (i % n) in holes else t for i, t in enumerate(tvals))
+            others = [mkds([0.0 if (i in holes) else tvals[k * n + i] for i in range(n)], [1.0] * n) for k in range(nds)]
+        else:
+            others = [mkds(list(tvals[k * n:(k + 1) * n]), [1.0] * n) for k in range(nds)]
         case = {'t-values per dataset': [list(tvals[k * n:(k + 1) * n]) for k in range(nds)], 'shape': shape, 'layout': lay, 'alpha': alpha,
                 'student alpha': salpha}
         stu = TestStudent(dsref, *others, name='s', alpha=salpha)
@@ -169,7 +180,7 @@ def job_class(args):
         rep.case(nontrivial=(tuple(map(repr, tvals)), shape, lay, nds, alpha) if nont else None,
                  outcome=('class', bool(rstu), bool(rbon), bool(rhol)))
         tag = f"{'nan' if any(math.isnan(t) for t in tvals) else 'nonan'}|layout={lay}|ndim={len(shape)}|nds={nds}" + \
-            ('' if salpha == alpha else '|student-level-differs')
+            ('' if salpha == alpha else '|student-level-differs') + ('|nan-in-reference' if nanref else '')
         level = alpha / 2
         anyb = anyh = False
         for k in range(nds):
@@ -239,6 +250,10 @@ def run(tier, seed):
                     jobs.append((job_class, (1, (), 'C', 1, alpha, first, salpha)))
                     jobs.append((job_class, (3, (3,), 'C', 1, alpha, first, salpha)))
                     jobs.append((job_class, (2, (2,), 'C', 2, alpha, first, salpha)))
+            if tier == 'thorough' or alpha == 0.05:
+                jobs.append((job_class, (3, (3,), 'C', 1, alpha, first, None, True)))
+                jobs.append((job_class, (2, (2,), 'C', 2, alpha, first, None, True)))
+                jobs.append((job_class, (4, (2, 2), 'C', 1, alpha, first, None, True)))
             if tier == 'thorough':
                 jobs.append((job_class, (3, (3,), 'C', 2, alpha, first)))
                 jobs.append((job_class, (4, (4,), 'C', 1, alpha, first)))
